@@ -149,7 +149,10 @@ def _child(spec: dict[str, Any]) -> None:
             self.now += self.step
             return self.now
 
-    S.time = Clk()  # type: ignore[attr-defined]
+    from vf.engine import seams
+
+    if seams.bind_clock(S, Clk()) == 0:  # import-style independent (see vf/engine/seams.py)
+        raise RuntimeError("seam gone: gallia.services.uds.server does not bind the wall clock under any known name")
     vc.G["service"] = service  # for the codec driven generator only; no harness seams in the child
     target = TargetURI(TARGET)
 
